@@ -67,7 +67,7 @@ def joins_child(ctx, cls, call, func, depth=0):
     """the call is `self._child.join(...)` or a self-method that (transitively) joins the child"""
     if last_attr(call) in ('join',) and receiver(call) == 'self._child':
         return True
-    if last_attr(call) == 'terminate' and receiver(call) == 'self._child':
+    if last_attr(call) in ('terminate', 'kill') and receiver(call) == 'self._child':
         return True
     if receiver(call) in ('self', 'super()') and depth < 2:
         r = ctx.prog.resolve_call(call, func, cls)
@@ -439,7 +439,7 @@ def run(ctx):
                               f'{F} uses the control socket on a path where it may already have been closed (remote side found dead)', where=loc(f, n.stmt))
         # ------------------------------------------------------------ R4 force path
         if f.name == 'terminate' and region in ('all', 'server') and lifecycle(ctx, P.cls(cls.name) if cls.name in PUBLIC else cls).kind in ('process', 'remote'):
-            kills = [c for st in stmts for c in calls_in(st) if last_attr(c) == 'terminate' and receiver(c) == 'self._child']
+            kills = [c for st in stmts for c in calls_in(st) if last_attr(c) in ('terminate', 'kill') and receiver(c) == 'self._child']
             ok = ctx.check('R4', f'{F}: the forced kill exists', len(kills) == 1, F, f'force-kill-sites:{len(kills)}',
                            f'{F} never calls Process.terminate(): force=True cannot guarantee a dead child', where=loc(f, f.node))
             if ok:
